@@ -244,13 +244,18 @@ class PathCtx:
                     status, backend = 'proved', 'z3-rewrite'
             except z3.Z3Exception:
                 pass
-        if status == 'unknown':
+        # a clause that has already been left open on earlier paths of this unit cannot end up proved: later paths get
+        # the base budget only (they can still refute it with a model), not the long retries
+        open_before = GAVE_UP.get(name, 0)
+        if status == 'unknown' and open_before < 4:
             status, model, backend = second_opinion(self.pc, goal, self.timeout_ms)
-        if status == 'unknown':
+        if status == 'unknown' and open_before < 2:
             # last resort before giving up: the same back ends with four times the budget (a loaded machine must not
             # turn a discharged obligation into an undecided one)
             status, model, backend = second_opinion(self.pc, goal, min(4 * self.timeout_ms, 120000))
             backend = backend + '-retry' if status != 'unknown' else backend
+        if status == 'unknown':
+            GAVE_UP[name] = open_before + 1
         cross = None
         if status == 'proved' and backend == 'z3' and CROSSCHECK['per_clause'] > 0:
             # thorough tier: an independent solver re-checks a sample of the obligations z3 discharged
@@ -271,6 +276,7 @@ class PathCtx:
 
 
 CROSSCHECK = dict(per_clause=0, seen={})
+GAVE_UP = {}        # clause name -> number of paths of the current unit on which it stayed undecided
 
 
 def cvc5_check(pc, goal, timeout_ms):
